@@ -547,6 +547,66 @@ func queryHistories(c *Ctx) {
 	}
 }
 
+// queryAfterLoad: Query, then LoadPolicies of more rules and facts into the same authorizer,
+// then Query again — the second answer must be over the least model of everything held.
+// Default symbols and integers only: a load into a used authorizer re-bases its symbol
+// table, which leaves only such content readable (see liveLoad in C18).
+func queryAfterLoad(c *Ctx) {
+	r := NewRng(c.Seed ^ 0x10ad)
+	n := 150
+	if c.Thorough {
+		n = 2500
+	}
+	x, y, z := V("x"), V("y"), V("z")
+	edge, path, reach := "resource", "right", "owner"
+	rules := []Rule{
+		{Head: Pred{Name: path, Terms: []Term{x, y}}, Body: []Pred{{Name: edge, Terms: []Term{x, y}}}},
+		{Head: Pred{Name: path, Terms: []Term{x, z}}, Body: []Pred{{Name: path, Terms: []Term{x, y}}, {Name: edge, Terms: []Term{y, z}}}},
+		{Head: Pred{Name: reach, Terms: []Term{y}}, Body: []Pred{{Name: path, Terms: []Term{I(0), y}}}},
+		{Head: Pred{Name: "role", Terms: []Term{x}}, Body: []Pred{{Name: reach, Terms: []Term{x}}, {Name: edge, Terms: []Term{x, x}}}},
+	}
+	for i := 0; i < n; i++ {
+		nodes := 2 + r.Intn(4)
+		var facts []Pred
+		for k, m := 0, 2+r.Intn(6); k < m; k++ {
+			facts = append(facts, Pred{Name: edge, Terms: []Term{I(int64(r.Intn(nodes))), I(int64(r.Intn(nodes)))}})
+		}
+		facts = permuted(r, dedupFacts(facts))
+		rs := permuted(r, rules)[:1+r.Intn(len(rules))]
+		query := func() AuthOp {
+			h := Pick(r, []Pred{{Name: path, Terms: []Term{x, y}}, {Name: reach, Terms: []Term{x}}, {Name: "role", Terms: []Term{x}}})
+			return AuthOp{K: "query", Rule: Rule{Head: Pred{Name: "user", Terms: h.Terms}, Body: []Pred{h}}}
+		}
+		a := AuthCase{InMemory: r.Chance(1, 2), MaxFacts: 1000, MaxIter: 100, Ctor: "for"}
+		kf, kr := r.Intn(len(facts)+1), r.Intn(len(rs)+1)
+		a.Tokens = [][]Block{{Block{Facts: facts[:kf/2]}}}
+		for _, f := range facts[kf/2 : kf] {
+			a.Ops = append(a.Ops, AuthOp{K: "addfact", Fact: f})
+		}
+		for _, rl := range rs[:kr] {
+			a.Ops = append(a.Ops, AuthOp{K: "addrule", Rule: rl})
+		}
+		if r.Chance(1, 4) {
+			a.Ops = append(a.Ops, AuthOp{K: "authorize"})
+		} else {
+			a.Ops = append(a.Ops, query())
+		}
+		var sub []AuthOp
+		for _, f := range facts[kf:] {
+			sub = append(sub, AuthOp{K: "addfact", Fact: f})
+		}
+		for _, rl := range rs[kr:] {
+			sub = append(sub, AuthOp{K: "addrule", Rule: rl})
+		}
+		a.Ops = append(a.Ops, AuthOp{K: "load", Sub: sub}, query(), query())
+		res, sx := emitAuth(c, "query-after-load", a)
+		c.Count("query-after-load")
+		if strings.Contains(res, "(f ") {
+			c.NonTrivial(sx)
+		}
+	}
+}
+
 func runC05(c *Ctx) {
 	c.Rule = "random Datalog programs over a small vocabulary (1-4 predicates incl. default symbols, arities 0-3, constants of every type incl. sets, 2-4 variable names, bodies of 0-4 atoms, repeated variables, self-joins, recursion, unbound head variables, error-free and erroring expressions); odometer shapes (all facts share one name; the only match is the last fact; no match for the last atom); QUERY cases for single-rule application; ODO cases: the order and multiplicity in which Rule.Apply emits index tuples for a given match table, exhaustive over all tables for small shapes and random for up to 5 predicates x 7 facts, against Model/Odometer.combos (proved equal to the lexicographic specification and to solve); query histories on an authorizer (graph programs split between the token and the authorizer; Query or Authorize, then facts and rules added one or two at a time with a Query after each: every answer must be over the least model of what the authorizer holds at that moment). Non-trivial = the run derived at least one new fact through a rule with >= 2 body atoms, or a QUERY returned >= 1 instance; distinct = distinct canonical case encodings. Expression-free successful runs are cross-checked against an independent in-harness least-model computation."
 	r := NewRng(c.Seed)
@@ -555,6 +615,7 @@ func runC05(c *Ctx) {
 		n = 60000
 	}
 	queryHistories(c)
+	queryAfterLoad(c)
 	for i := 0; i < n; i++ {
 		g := newProgGen(r)
 		var rc runCase
